@@ -120,7 +120,7 @@ CLAIMS = {
              "is shown true for ALL valuations of the nil-ness of x and of the opaque conditions by one solver query. Second sentence (a possibly-nil argument of a contracted function keeps the call result possibly nil): within the bounds the solver shows that a controlled trigger is "
              "active exactly when its controller (the call-site argument site) is nilable - whether it became nilable by a flow, by an annotation before registration, or only in the second inference round - in every order.",
         note="K1 is bounded by its function grammar (no loops, calls or aggregates). The call-site bookkeeping in the assertion tree (which calls get duplicated triggers) is outside. "
-             "Found and fixed (two fix: commits): pre-determined controllers and controllers determined in the second round never activated their triggers.",
+             "Found and fixed (two fix: commits): pre-determined controllers and controllers determined in the second round never activated their triggers. Source level (P20): 120 callee x argument x use programs through the real pipeline with real SSA, real inferContracts and real trigger duplication. " + PIPE_NOTE + "",
     ),
 }
 
